@@ -307,7 +307,7 @@ def replay_once(engine, variant, rec, scratch):
 NUMERIC_SKIP = ("i", "h", "o", "src", "seed", "val", "pat", "x", "form", "mode", "w", "t", "task")
 
 
-def minimise(engine, variant, rec, want_kind, budget_s=60, max_execs=1500, list_key="ops"):
+def minimise(engine, variant, rec, want_kind, budget_s=60, max_execs=1500, list_key="ops", test=None):
     """Delta-debug the op list, then shrink numeric arguments, while the same
     violation kind persists. Returns the minimised record."""
     os.makedirs(JOURNALS, exist_ok=True)
@@ -319,6 +319,8 @@ def minimise(engine, variant, rec, want_kind, budget_s=60, max_execs=1500, list_
         if time.time() - t0 > budget_s or execs[0] >= max_execs:
             return False
         execs[0] += 1
+        if test is not None:
+            return test(cand)
         kinds, crashed, _ = replay_once(engine, variant, cand, scratch)
         return want_kind in kinds
 
